@@ -454,14 +454,16 @@ func Build(defs []*StoreDef) *Schema {
 		}
 		return d.Type
 	}
-	// pass 1: stores
+	// pass 1: stores. The path of every definition is handed over in one buffer which is used again for the next store
+	// (it also has room for more elements): a store definition's path is the caller's, the store keeps a copy
+	pathBuf := make([]string, 0, 8)
 	for _, d := range defs {
 		st := &St{Def: d, Sym: map[string]boltz.EntitySymbol{}, Unique: map[string]boltz.ReadIndex{},
 			SetIdx: map[string]boltz.SetReadIndex{}, Links: map[string]boltz.LinkCollection{}, RcLinks: map[string]boltz.RefCountedLinkCollection{}}
 		sd := boltz.StoreDefinition[*Ent]{
 			EntityType:     d.Type,
 			EntityStrategy: &strategy{st: st},
-			BasePath:       d.BasePath,
+			BasePath:       append(pathBuf[:0], d.BasePath...),
 		}
 		typ := d.Type
 		sd.EntityNotFoundF = func(id string) error { return boltz.NewNotFoundError(boltz.GetSingularEntityType(typ), "id", id) }
@@ -470,7 +472,7 @@ func Build(defs []*StoreDef) *Schema {
 			st.ParentSt = p
 			sd.EntityType = ""
 			sd.Parent = p.Store
-			sd.BasePath = d.ChildPath
+			sd.BasePath = append(pathBuf[:0], d.ChildPath...)
 			sd.ParentMapper = func(e boltz.Entity) boltz.Entity { return e }
 			p.Children = append(p.Children, st)
 		}
@@ -603,7 +605,13 @@ func joinPath(p []string) string {
 
 // InitDb creates the static buckets (entity buckets and index buckets).
 func (sc *Schema) InitDb(db boltz.Db) error {
-	return db.Update(nil, func(ctx boltz.MutateContext) error {
+	return db.Update(nil, func(ctx boltz.MutateContext) error { return sc.InitTx(ctx) })
+}
+
+// InitTx declares the stores' buckets and indexes inside the caller's transaction (an application that sets its
+// stores up at the end of a migration, in the transaction which wrote the data).
+func (sc *Schema) InitTx(ctx boltz.MutateContext) error {
+	{
 		for _, k := range sc.Order {
 			st := sc.Stores[k]
 			if st.Def.Parent == "" {
@@ -619,7 +627,7 @@ func (sc *Schema) InitDb(db boltz.Db) error {
 			}
 		}
 		return nil
-	})
+	}
 }
 
 type errHolder struct{ err error }
